@@ -150,6 +150,9 @@ func (d *Director) DirectorFunc(target *url.URL) func(*http.Request) {
 			req.URL.RawQuery = targetQuery + "&" + req.URL.RawQuery
 		}
 
+		// the reverse proxy drops, after the request was signed, every header the client names in Connection
+		protectSignedHeaders(req.Header)
+
 		if _, ok := req.Header["User-Agent"]; !ok {
 			// explicitly disable User-Agent so it's not set to default value
 			req.Header.Set("User-Agent", "")
@@ -161,6 +164,35 @@ func (d *Director) DirectorFunc(target *url.URL) func(*http.Request) {
 			req.Host = target.Host
 		}
 	}
+}
+
+// protectSignedHeaders removes from the Connection header the tokens that name a header covered by the request
+// signature (among them the identity headers set by sso proxy). httputil.ReverseProxy treats the headers named
+// in Connection as hop-by-hop and removes them from the outgoing request.
+func protectSignedHeaders(h http.Header) {
+	values, ok := h["Connection"]
+	if !ok {
+		return
+	}
+	kept := []string{}
+	for _, value := range values {
+		for _, token := range strings.Split(value, ",") {
+			token = strings.TrimSpace(token)
+			if token == "" {
+				continue
+			}
+			signed := false
+			for _, hdr := range signedHeaders {
+				if http.CanonicalHeaderKey(token) == hdr {
+					signed = true
+				}
+			}
+			if !signed {
+				kept = append(kept, token)
+			}
+		}
+	}
+	h["Connection"] = kept
 }
 
 // StaticDirectorFunc is a convenience handler around StaticDirectorFunc.
